@@ -4,6 +4,8 @@ import Driver.OpsClt
 import Driver.OpsFlows
 import Driver.OpsRewrite
 import Driver.OpsTopDown
+import Driver.OpsAlgebra
+import Driver.OpsTensor
 /-
 Line-protocol driver: one JSON object per input line, one answer line per input line.
 Run with `lake env lean --run Driver/Main.lean < ops.jsonl`.
@@ -66,7 +68,9 @@ def handle (st : St) (j : Json) : Except String (St × String) := do
       handleClt o j,
       handleFlows o j,
       handleRewrite st.net st.root o j,
-      handleTopDownD st.net st.root st.dom o j ]
+      handleTopDownD st.net st.root st.dom o j,
+      handleAlgebra o j,
+      handleTensor o j ]
     match exts.findSome? id with
     | some r => do let a ← r; pure (st, a)
     | none => .error s!"unknown op {o}"
